@@ -364,3 +364,30 @@ def earley_recognise(cfg: CFG, toks) -> bool:
                             chart[i].add(it)
                             work.append(it)
     return any(l == START and d == 1 and o == 0 for (l, a, d, o) in chart[n])
+
+
+def _earley_chunk(args):
+    bnf, sentences = args
+    cfg = CFG.from_bnf(bnf)
+    for s in sentences:
+        if not earley_recognise(cfg, s):
+            return s
+    return None
+
+
+def first_non_member(bnf_text: str, sentences, workers=None):
+    """First sentence (in list order per chunk) that the reference grammar does not derive, using worker
+    processes; None if all are members."""
+    import os
+    from concurrent.futures import ProcessPoolExecutor
+    sentences = list(sentences)
+    workers = workers or max(2, (os.cpu_count() or 4))
+    if len(sentences) < 2000:
+        return _earley_chunk((bnf_text, sentences))
+    size = (len(sentences) + workers - 1) // workers
+    chunks = [(bnf_text, sentences[i:i + size]) for i in range(0, len(sentences), size)]
+    with ProcessPoolExecutor(workers) as ex:
+        for r in ex.map(_earley_chunk, chunks):
+            if r is not None:
+                return r
+    return None
